@@ -656,6 +656,111 @@ func pushOrStop(conn *hconn.Conn, up imap.Update, stop <-chan struct{}) bool {
 	}
 }
 
+// ---------- parked connections: one per protocol state, left OPEN by the client until the leak check is over ----------
+
+type parked struct {
+	state string
+	user  string
+	c     *imapc.Client
+}
+
+var parkStates = []string{"not-authenticated", "mid-literal", "authenticated", "selected", "idle"}
+
+// park opens a connection and brings it into the given protocol state; the client then does nothing more with it.
+func park(w *world, user, state string) (*parked, error) {
+	c, err := imapc.DialTimeout(w.s.Addr, watchdog)
+	if err != nil {
+		return nil, err
+	}
+	c.TagPfx = "P"
+	fail1 := func(e error) (*parked, error) { c.Close(); return nil, e }
+	login := func() error {
+		for i := 0; i < 20; i++ { // the other clients' wrong passwords trip the login jail now and then
+			r, err := c.Cmd("LOGIN " + user + " pass")
+			if err != nil {
+				return err
+			}
+			if r.Status == "OK" {
+				return nil
+			}
+			time.Sleep(5 * time.Millisecond)
+		}
+		return fmt.Errorf("login refused")
+	}
+	switch state {
+	case "not-authenticated":
+	case "mid-literal": // LOGIN {n}: continuation received, literal not completed
+		if err := c.SendRaw([]byte("P1 LOGIN {4}\r\n")); err != nil {
+			return fail1(err)
+		}
+		l, err := c.ReadLine(watchdog)
+		if err != nil || !strings.HasPrefix(l.Text, "+") {
+			return fail1(fmt.Errorf("no continuation: %v %q", err, l.Text))
+		}
+		if err := c.SendRaw([]byte("us")); err != nil {
+			return fail1(err)
+		}
+	case "authenticated":
+		if err := login(); err != nil {
+			return fail1(err)
+		}
+	case "selected", "idle":
+		if err := login(); err != nil {
+			return fail1(err)
+		}
+		if r, err := c.Cmd("SELECT INBOX"); err != nil || r.Status != "OK" {
+			return fail1(fmt.Errorf("select: %v %s", err, r.Text))
+		}
+		if state == "idle" {
+			if err := c.SendRaw([]byte("P9 IDLE\r\n")); err != nil {
+				return fail1(err)
+			}
+			for {
+				l, err := c.ReadLine(watchdog)
+				if err != nil {
+					return fail1(err)
+				}
+				if strings.HasPrefix(l.Text, "+") {
+					break
+				}
+				if strings.HasPrefix(l.Text, "P9 ") {
+					return fail1(fmt.Errorf("idle refused: %s", l.Text))
+				}
+			}
+		}
+	}
+	return &parked{state: state, user: user, c: c}, nil
+}
+
+func parkAll(w *world, user string) []*parked {
+	var out []*parked
+	for _, st := range parkStates {
+		p, err := park(w, user, st)
+		if err != nil {
+			if isTimeout(err) {
+				fail("hang", "no answer within 60 s while bringing a connection into state "+st, gluonStacks(true))
+			} else {
+				note("could not park a %s connection of %s: %v", st, user, err)
+			}
+			continue
+		}
+		stat("parked:" + st)
+		out = append(out, p)
+	}
+	return out
+}
+
+// serverClosed tells whether the server has closed the parked connection (it reads until EOF or for a short while).
+func (p *parked) serverClosed() bool {
+	deadline := time.Now().Add(3 * time.Second)
+	for time.Now().Before(deadline) {
+		if _, err := p.c.ReadLine(time.Until(deadline) + time.Millisecond); err != nil {
+			return !isTimeout(err)
+		}
+	}
+	return false
+}
+
 // logHook collects the distinct error-level log lines of gluon (the harness discards the log output itself).
 type logHook struct{}
 
@@ -698,7 +803,7 @@ func main() {
 	closeWhilePushing := rng.Intn(4) != 0
 	rep.Scenario = map[string]interface{}{"seed": *seed, "sessions_user0": *nSess, "sessions_user1": 3, "run_ms": *runMs,
 		"dial_between_close_and_listener_close": lateDial, "remove_user1_with_files": removeFiles, "connector_pushing_during_close": closeWhilePushing,
-		"teardown": "RemoveUser(user1) racing with its sessions, then Close racing with the sessions of user0 and the connector updates"}
+		"teardown": "RemoveUser(user1) racing with its sessions, then Close racing with the sessions of user0 and the connector updates; per user one connection parked in each of: not-authenticated, mid-literal (LOGIN {n}), authenticated, selected, IDLE, whose client sockets stay open until the goroutine check is over"}
 	defer writeReport()
 
 	dbi := &tdbIface{inner: gluon.VerifSQLiteClientInterface(), byUsr: map[string]*tdb{}}
@@ -749,9 +854,12 @@ func main() {
 	go pusher(w, conn0, *seed*7+1, mboxIDs)
 	time.Sleep(time.Duration(*runMs) * time.Millisecond)
 
-	// teardown, racing with everything above
+	// teardown, racing with everything above. First: one connection per protocol state (not authenticated, in the middle
+	// of a LOGIN literal, authenticated, selected, idling) for each user; the client keeps these sockets open until the
+	// goroutine check is over, so only the server can end their sessions.
 	atomic.StoreInt32(&w.tearing, 1)
 	users := s.Opts.Users
+	parkedB := parkAll(w, "other")
 	_, ok := withWatchdog("RemoveUser", func() error {
 		return s.S.RemoveUser(context.Background(), users[1].ID, removeFiles)
 	})
@@ -765,6 +873,7 @@ func main() {
 		// (the pusher shares the stop channel with the workers; in this variant everything is told to stop first)
 		_ = pushStop
 	}
+	parkedA := parkAll(w, "user")
 	atomic.StoreInt32(&w.closing, 1)
 	_, ok = withWatchdog("Close", func() error { return s.S.Close(context.Background()) })
 	if !ok {
@@ -823,6 +932,15 @@ func main() {
 			}
 			fail("leak", "goroutine left 15 s after Close and listener close: "+fn, fmt.Sprintf("%d such goroutine(s)\n%s", byFn[fn], detail))
 		}
+	}
+	// only now do the parked clients look at their sockets and let go of them
+	for _, p := range append(parkedA, parkedB...) {
+		if p.serverClosed() {
+			stat("parked-closed-by-server:" + p.state)
+		} else {
+			stat("parked-still-open-after-close:" + p.state)
+		}
+		p.c.Close()
 	}
 	os.RemoveAll(s.Dir)
 	repMu.Lock()
